@@ -97,6 +97,15 @@ example : ruleSource P0 aliasesDW ruleDW
     = .ok (cs!"(?m)\\Aa\\.(?<grok0>[0-9]+)-[a-z]+=(?<grok1>[a-z]+)\\z",
            [(0, ⟨[cs!"n"], [.integer]⟩), (1, ⟨[cs!"s"], []⟩)]) := by decide
 
+/-- the hypotheses of `flat_rule_captures` hold together on this rule for the reference engine (group
+    names in order, numbered fields), and the match result is the Spec's object. -/
+example : (match compileRule P0 Rx.refEngine [] aliasesDW ruleDW with
+     | .ok r => (r.names, r.fields.length, applyRule P0 Rx.refEngine r cs!"a.12-xy=z")
+     | _ => ([], 0, .oom))
+    = (patternNames [] ((List.range 2).map grokName), 2,
+       .ok (.matched (.obj (.cons [110] (.int 12) (.cons [115] (.bytes [122]) .nil))) 0)) := by
+  decide +kernel
+
 /-- a cyclic definition set: rejected, and the reported alias is the first of the walk. -/
 example : ruleSource P0 [(cs!"a", cs!"%{b}"), (cs!"b", cs!"x%{c}"), (cs!"c", cs!"%{b}")] cs!"%{a}"
     = .err (.circular cs!"a") := by decide
